@@ -62,7 +62,10 @@ def gen_cases(ctx):
         cfg = dict(a=a, b=b, xs=xs, uu=uu,
                    sK0=q(rng.uniform(5, 80), 16), P0=[365.25, 128.0, 50.0][int(rng.integers(0, 3))], maxK=[500.0, q(rng.uniform(15, 120), 16)][int(rng.random() < 0.6)],
                    sigma_v=[q(rng.uniform(10, 200), 8), q(rng.uniform(0.01, 1), 1024), q(rng.uniform(1e-4, 1e-2), 1 << 20)],
-                   poly_trend=int(rng.integers(1, 4)), seed=int(rng.integers(0, 2**31)), n_rows=6)
+                   poly_trend=int(rng.integers(1, 4)), seed=int(rng.integers(0, 2**31)), n_rows=6,
+                   K_unit=["km/s", "m/s"][int(rng.random() < 0.4)], P0_unit=["d", "yr"][int(rng.random() < 0.4)])
+        # sigma_K0 is handed over in K_unit and P0 in P0_unit; every number below (sK0, maxK, sigma) is then in K_unit
+        cfg["f"] = 1000.0 if cfg["K_unit"] == "m/s" else 1.0
         cfg["Pe"] = [(q(a * (b / a) ** rng.random(), 1 << 16), q(rng.uniform(0, 0.95), 1024)) for _ in range(4)] + [(a, 0.0), (q(min(b, a * 1.01), 1 << 16), 0.9375)]
         cases.append(cfg)
     return cases
@@ -82,7 +85,8 @@ def build_prior(cfg):
     with warnings.catch_warnings():
         warnings.simplefilter("ignore")
         if cfg["maxK"] == 500.0:
-            return JokerPrior.default(P_min=cfg["a"] * u.day, P_max=cfg["b"] * u.day, sigma_K0=cfg["sK0"] * u.km / u.s, P0=cfg["P0"] * u.day,
+            return JokerPrior.default(P_min=cfg["a"] * u.day, P_max=cfg["b"] * u.day, sigma_K0=(cfg["sK0"] * cfg["f"]) * u.Unit(cfg["K_unit"]),
+                                      P0=(cfg["P0"] * u.day).to(u.Unit(cfg["P0_unit"])),
                                       sigma_v=sv if cfg["poly_trend"] > 1 else sv[0], poly_trend=cfg["poly_trend"])
         with pm.Model():
             P = xu.with_unit(UniformLog("P", cfg["a"], cfg["b"]), u.day)
@@ -90,7 +94,8 @@ def build_prior(cfg):
             om = xu.with_unit(pm.Uniform("omega", 0, 2 * np.pi), u.rad)
             M0 = xu.with_unit(pm.Uniform("M0", 0, 2 * np.pi), u.rad)
             s = xu.with_unit(pm.Deterministic("s", pt.constant(0.0)), u.km / u.s)
-            K = xu.with_unit(FixedCompanionMass("K", P=P, e=e, sigma_K0=cfg["sK0"] * u.km / u.s, P0=cfg["P0"] * u.day, max_K=cfg["maxK"] * u.km / u.s), u.km / u.s)
+            K = xu.with_unit(FixedCompanionMass("K", P=P, e=e, sigma_K0=(cfg["sK0"] * cfg["f"]) * u.Unit(cfg["K_unit"]), P0=(cfg["P0"] * u.day).to(u.Unit(cfg["P0_unit"])),
+                                                max_K=cfg["maxK"] * u.km / u.s), u.Unit(cfg["K_unit"]))
             pars = dict(P=P, e=e, omega=om, M0=M0, s=s, K=K)
             for i in range(cfg["poly_trend"]):
                 pars[f"v{i}"] = xu.with_unit(pm.Normal(f"v{i}", np.array(0.0), np.array(cfg["sigma_v"][i], dtype="f8")), u.km / u.s / u.day**i)
@@ -148,7 +153,7 @@ def predicate(cfg, o):
         if not (abs(dr - exp) <= SINGLE * exp * max(1.0, norm) and a * (1 - SINGLE) <= dr <= b * (1 + SINGLE * max(1.0, norm))):
             errs.append(f"UniformLog rng_fn with u={u_}: {dr!r}, expected {exp!r} in [{a}, {b})")
     for (p_, e_), sg, k_, lpk in zip(cfg["Pe"], o["sigma"], o["K_at"], o["K_logp"]):
-        exp = min(max(cfg["sK0"] * (p_ / cfg["P0"]) ** (-1 / 3) / math.sqrt(1 - e_**2), 0.0), cfg["maxK"])
+        exp = min(max(cfg["sK0"] * cfg["f"] * (p_ / cfg["P0"]) ** (-1 / 3) / math.sqrt(1 - e_**2), 0.0), cfg["maxK"] * cfg["f"])
         if abs(sg - exp) > SINGLE * exp:
             errs.append(f"K prior sigma at P={p_}, e={e_}: {sg!r}, declared min(sigma_K0 (P/P0)^(-1/3)/sqrt(1-e^2), max_K) = {exp!r}")
         elp = -0.5 * (k_ / exp) ** 2 - math.log(exp) - 0.5 * math.log(2 * math.pi)
@@ -177,7 +182,7 @@ def joint_logdens(cfg, rows, lin):
     a, b = cfg["a"], cfg["b"]
     d = -np.log(rows["P"]) + (0.867 - 1) * np.log(rows["e"]) + (3.03 - 1) * np.log(1 - rows["e"])
     if lin:
-        sg = np.clip(cfg["sK0"] * (rows["P"] / cfg["P0"]) ** (-1 / 3) / np.sqrt(1 - rows["e"] ** 2), 0, cfg["maxK"])
+        sg = np.clip(cfg["sK0"] * cfg["f"] * (rows["P"] / cfg["P0"]) ** (-1 / 3) / np.sqrt(1 - rows["e"] ** 2), 0, cfg["maxK"] * cfg["f"])
         d = d - 0.5 * (rows["K"] / sg) ** 2 - np.log(sg)
         for i, v in enumerate(rows["v"]):
             d = d - 0.5 * (v / cfg["sigma_v"][i]) ** 2
@@ -211,11 +216,11 @@ def run_cases(ctx, cases):
                 stats["draws"] += 1
         for (p_, e_), sg, k_, lpk in zip(cfg["Pe"], o["sigma"], o["K_at"], o["K_logp"]):
             if math.isfinite(sg) and math.isfinite(lpk):
-                t_sig.append(f"({coq_Q(cfg['sK0'])}, {coq_Q(cfg['P0'])}, {coq_Q(cfg['maxK'])}, {coq_Q(p_)}, {coq_Q(e_)}, {coq_Q(sg)}, {coq_Q(tol_for(sg))}, {coq_Q(k_)}, {coq_Q(lpk)}, {coq_Q(tol_for(lpk, 5 * SINGLE))})")
+                t_sig.append(f"({coq_Q(cfg['sK0'] * cfg['f'])}, {coq_Q(cfg['P0'])}, {coq_Q(cfg['maxK'] * cfg['f'])}, {coq_Q(p_)}, {coq_Q(e_)}, {coq_Q(sg)}, {coq_Q(tol_for(sg))}, {coq_Q(k_)}, {coq_Q(lpk)}, {coq_Q(tol_for(lpk, 5 * SINGLE))})")
                 info["sig"].append((cfg, p_, e_, sg))
                 stats["sigma_points"] += 1
-                stats["clip_active"] += sg == cfg["maxK"]
-        pc = (f"(mk_pcfg {coq_Q(a)} {coq_Q(b)} kipping_global {coq_Q(cfg['sK0'])} {coq_Q(cfg['P0'])} {coq_Q(cfg['maxK'])} "
+                stats["clip_active"] += sg == cfg["maxK"] * cfg["f"]
+        pc = (f"(mk_pcfg {coq_Q(a)} {coq_Q(b)} kipping_global {coq_Q(cfg['sK0'] * cfg['f'])} {coq_Q(cfg['P0'])} {coq_Q(cfg['maxK'] * cfg['f'])} "
               f"{coq_list(['(0, ' + coq_Q(s) + ')' for s in cfg['sigma_v'][:cfg['poly_trend']]])})")
         for lin, rows in o["rows"].items():
             def prow(i):
@@ -299,6 +304,7 @@ def replay(ctx, path):
         return run(ctx)
     ctx.make_overlay(need_kernel=True)
     cfg["Pe"] = [tuple(x) for x in cfg["Pe"]]
+    cfg.setdefault("f", 1.0); cfg.setdefault("K_unit", "km/s"); cfg.setdefault("P0_unit", "d")
     if ctx.build_models(MODELS):
         run_cases(ctx, [cfg])
     else:
